@@ -74,6 +74,14 @@ PROP = dict(
         "MM.C31.dseq_le_max",
         "MM.C31.dseq_le_geometric",
         "MM.C31.C31_run",
+        "MM.C31.dseq_mono",
+        "MM.C31.dseq_le_max_all",
+        "MM.C31.dseq_cap_absorbing",
+        "MM.C31.dseq_reaches_cap",
+        "MM.C31.dseq_step_slack",
+        "MM.C31.sys_component_reachable",
+        "MM.C31.sys_flags_agree",
+        "MM.C31.C31_sys",
         "MM.C31.LockTie.C31_lock_regions",
         "MM.C31.C31_old_attempt_while_paused",
         "MM.C31.C31_old_orphan_timer",
@@ -88,7 +96,7 @@ PROP = dict(
          "the upper bound only with 300 ms slack. non-trivial = waits",
     nontrivial=lambda op, out: op.startswith("wait"),
     trusted_base=[
-        "MM/Model/C31.lean: one peer address (the engine runs one instance per address, sharing paused/closed; independence of addresses is not a theorem); atomic steps = regions under Reconnector.mu; time.Timer.Stop treated as atomic with the expiry "
+        "MM/Model/C31.lean: n addresses = product of single-address LTSs whose flag copies provably agree (sys_flags_agree, C31_sys); that the code's addresses interact only through paused/closed is tied by the multi-address T-diff cases and the lock-shape facts; atomic steps = regions under Reconnector.mu; time.Timer.Stop treated as atomic with the expiry "
         "(a timer that is already firing when stopped is covered only by the paused check at the start of attemptReconnect)",
         "float64 arithmetic of Multiplier/Jitter modelled as exact rationals + truncation (exact for the multipliers used in T-diff)",
         "the harness waits up to 30 ms for the reconnector to process a callback result before the next scripted step",
